@@ -90,6 +90,9 @@ func main() {
 		tier = os.Args[2]
 	}
 	sel := func(all []window) []window {
+		if tier == "large" {
+			return largeWindows()
+		}
 		if tier != "quick" {
 			return all
 		}
@@ -102,14 +105,22 @@ func main() {
 		return out
 	}
 	if len(os.Args) > 1 && os.Args[1] == "-list" {
-		for i, w := range sel(buildWindows(0)) {
+		var base []window
+		if tier != "large" {
+			base = buildWindows(0)
+		}
+		for i, w := range sel(base) {
 			fmt.Printf("%d %s\n", i, w.name)
 		}
 		return
 	}
 	sigma, _ := strconv.Atoi(os.Args[1])
 	fillBlob(sigma)
-	ws := sel(buildWindows(sigma))
+	var base []window
+	if tier != "large" {
+		base = buildWindows(sigma)
+	}
+	ws := sel(base)
 	sink += mark(-1)
 	for i := range ws {
 		ws[i].f()
@@ -317,6 +328,29 @@ func buildWindows(sigma int) []window {
 		{"ecvrf.ProveWithAddedRandomness", func() { _, _ = ecvrf.ProveWithAddedRandomness(&blobReader{}, sk, msg) }},
 	}
 	return W
+}
+
+// largeWindows: the constant-time multiscalar multiplication at term counts on both sides of the size at which
+// the VARIABLE-time routines switch algorithm (190): the constant-time entry point must not follow them.
+func largeWindows() []window {
+	mk := func(n int) window {
+		ss := make([]*scalar.Scalar, n)
+		ps := make([]*curve.EdwardsPoint, n)
+		for i := range ss {
+			ss[i] = sc(i % 8)
+			ps[i] = curve.ED25519_BASEPOINT_POINT
+		}
+		var ep curve.EdwardsPoint
+		return window{fmt.Sprintf("EdwardsPoint.MultiscalarMul(n=%d, secret scalars)", n), func() { ep.MultiscalarMul(ss, ps) }}
+	}
+	var rp curve.RistrettoPoint
+	rs := make([]*scalar.Scalar, 190)
+	rps := make([]*curve.RistrettoPoint, 190)
+	for i := range rs {
+		rs[i] = sc(i % 8)
+		rps[i] = curve.RISTRETTO_BASEPOINT_POINT
+	}
+	return []window{mk(16), mk(190), {"RistrettoPoint.MultiscalarMul(n=190, secret scalars)", func() { rp.MultiscalarMul(rs, rps) }}}
 }
 
 func b2i(b bool) int {
